@@ -73,7 +73,11 @@ def build_poly(lit: dict) -> Any:
     except Exception as exc:
         raise core.Undecided(f"operand could not be built: {type(exc).__name__}") from exc
     if not ok:
-        raise core.Undecided("operand could not be built: read-back differs")
+        # the constructor returned normally and the object is not the polynomial that was asked for: whatever the
+        # property under test says about "every polynomial" is then false for this one
+        raise core.Violation("operand-construction", "polynomial_from_attributes",
+                             f"asked for {canon_text(want)[:200]} ({dtype}, shape {shape}); the object reads {canon_text(have)[:200]} ({poly.dtype}, shape {poly.shape})",
+                             {"dtype": str(dtype)})
     return poly
 
 
